@@ -138,7 +138,12 @@ func genScenario(r *hx.Rand, big bool) scenario {
 			break
 		}
 		if k < answered {
-			ls = append(ls, fmt.Sprintf("frame ok c=%d", c))
+			if r.Intn(5) == 0 {
+				// the same reply, fragmented by the sender: a first websocket fragment of 1..40 bytes, then the rest
+				ls = append(ls, fmt.Sprintf("frame okfrag c=%d cut=%d", c, 1+r.Intn(40)))
+			} else {
+				ls = append(ls, fmt.Sprintf("frame ok c=%d", c))
+			}
 		}
 	}
 	if !fatal && answered < n && r.Intn(3) == 0 {
@@ -479,6 +484,28 @@ func runScenario(sc scenario, rep *hx.Report) outcome {
 					if _, seen := firstGood[c]; !seen && !cancelled[c] {
 						firstGood[c] = good
 						answeredBeforeFatal[c] = true
+					}
+				case "okfrag":
+					frame = snix.ReplyFrame(id, helloTyp, 0, snix.StrBody(good))
+					if _, seen := firstGood[c]; !seen && !cancelled[c] {
+						firstGood[c] = good
+						answeredBeforeFatal[c] = true
+					}
+					cut := atoi(kv(ws, "cut"))
+					if cut >= len(frame) {
+						cut = len(frame) - 1
+					}
+					// two raw websocket frames (server frames are not masked): binary, not final; continuation, final
+					raw := append([]byte{0x02, byte(cut)}, frame[:cut]...)
+					rest := frame[cut:]
+					raw = append(raw, 0x80, byte(len(rest)))
+					raw = append(raw, rest...)
+					if len(rest) < 126 && cut < 126 {
+						if _, err := p.Conn.UnderlyingConn().Write(raw); err != nil {
+							out.note = "peer send: " + err.Error()
+						}
+						out.model = append(out.model, fmt.Sprintf("reply cap=%d %s", readSize, hx.Hex(frame)))
+						continue
 					}
 				case "okread":
 					data := make([]byte, atoi(kv(ws, "len")))
